@@ -46,7 +46,8 @@ Definition add (l f : N) : N := N.lor l (2 ^ f).
 Arguments has : simpl never.
 Arguments add : simpl never.
 
-Record cookie := { cuser : N; clevel : N }.
+(* an auth cookie: the signed claims sub, auth_type, iat, exp (seconds) *)
+Record cookie := { cuser : N; clevel : N; ciat : Z; cexp : Z }.
 Record token := { towner : N; texp : Z }.
 
 (* one-time values *)
@@ -68,7 +69,7 @@ Record devices := { has_totp : bool; has_u2f : bool; has_wa : bool; has_profile 
 
 Record challenge := { chid : N; ch_wa : bool; chexp : Z }.   (* ch_wa: created by webauthnAuthLogin *)
 Record boototp := { bserial : N; bexp : Z }.
-Record vipentry := { vc : N; vuser : N; vtx : N }.
+Record vipentry := { vc : N; vuser : N; vtx : N; vexp : Z }.   (* vexp: pushPollTransaction.ExpiresAt *)
 
 Record st := {
   issued : list cookie;                (* every auth cookie emitted so far, oldest first *)
@@ -79,7 +80,7 @@ Record st := {
   chal : N -> option challenge;        (* state.localAuthData *)
   last_totp : N -> Z;                  (* profile.LastSuccessfullTOTPCounter *)
   boot : N -> option boototp;          (* profile.BootstrapOTP *)
-  proved : list (N * N);               (* ghost *)
+  proved : list (N * N * Z);           (* ghost: (user, factor, time of the verification) *)
   spent : list onetime;                (* ghost *)
   now : Z;                             (* seconds *)
   fresh : N
@@ -90,7 +91,11 @@ Definition upd {A} (m : N -> A) (u : N) (a : A) : N -> A := fun x => if N.eqb x 
 Record config := {
   devs : N -> devices;
   webui : N;            (* getRequiredWebUIAuthLevel(): mask *)
-  sel_last : bool;      (* checkAuth and updateAuthCookieAuthlevel use the LAST auth_cookie *)
+  cookie_life : Z;      (* maxAgeSecondsAuthCookie *)
+  sel_last : bool;      (* checkAuth authenticates the LAST auth_cookie of the request *)
+  upg_last : bool;      (* updateAuthCookieAuthlevel re-signs the LAST auth_cookie of the request *)
+  vip_life : Z;              (* maxAgeSecondsVIPCookie *)
+  vip_expiry : bool;         (* getPushPollTransaction ignores an entry past its ExpiresAt (repaired) *)
   poll_checks_user : bool;   (* VIPPollCheckHandler compares the transaction's user (the repaired code) *)
   totp_monotone : bool;      (* validateUserTOTP refuses steps <= the last accepted one (repaired) *)
   chal_expiry : bool;        (* the finish handlers test the challenge's ExpiresAt (repaired) *)
@@ -133,19 +138,23 @@ Inductive op :=
 | Req (cert : option N) (fault : bool) (o : op).
 
 (* ---- checkAuth ---- *)
-Fixpoint attached (s : st) (cs : list nat) : list cookie :=
-  match cs with
-  | [] => []
-  | i :: r => match nth_error (issued s) i with Some c => c :: attached s r | None => attached s r end
-  end.
+(* the auth_cookie values of a request, in order; an index that names nothing issued stands for
+   a value that does not verify (junk) *)
+Definition attached (s : st) (cs : list nat) : list (option cookie) := map (nth_error (issued s)) cs.
 
-Definition pick (k : config) (l : list cookie) : option cookie :=
-  if sel_last k then last (map Some l) None else hd_error l.
+(* which of several auth_cookie values a function looks at: the last or the first.  Nothing
+   attached, or junk in that position: none *)
+Definition pick_sel (lst : bool) (l : list (option cookie)) : option cookie :=
+  if lst then last l None else hd None l.
+Definition pick (k : config) (l : list (option cookie)) : option cookie := pick_sel (sel_last k) l.
 
-(* cookie branch: the session a request runs in, if its level meets the required mask *)
+(* cookie branch of checkAuth: the session a request runs in — the chosen cookie must verify, must
+   not be expired ("ExpiresAt before now"; with whole seconds: exp <= now) and its level must meet
+   the required mask; there is no fallback to another attached cookie *)
 Definition session (k : config) (s : st) (cs : list nat) (mask : N) : option cookie :=
   match pick k (attached s cs) with
-  | Some c => if N.eqb (N.land (clevel c) mask) 0 then None else Some c
+  | Some c => if (cexp c <=? now s)%Z then None
+              else if N.eqb (N.land (clevel c) mask) 0 then None else Some c
   | None => None
   end.
 
@@ -164,7 +173,7 @@ Definition auth (k : config) (s : st) (cert : option N) (cs : list nat) (mask : 
 Definition set_issued (s : st) (l : list cookie) : st :=
   {| issued := l; tokens := tokens s; vip := vip s; txs := txs s; approved := approved s; chal := chal s;
      last_totp := last_totp s; boot := boot s; proved := proved s; spent := spent s; now := now s; fresh := fresh s |}.
-Definition set_ghost (s : st) (p : list (N * N)) (sp : list onetime) : st :=
+Definition set_ghost (s : st) (p : list (N * N * Z)) (sp : list onetime) : st :=
   {| issued := issued s; tokens := tokens s; vip := vip s; txs := txs s; approved := approved s; chal := chal s;
      last_totp := last_totp s; boot := boot s; proved := p; spent := sp; now := now s; fresh := fresh s |}.
 Definition set_chal (s : st) (c : N -> option challenge) (fr : N) : st :=
@@ -177,21 +186,25 @@ Definition set_totp (s : st) (l : N -> Z) : st :=
   {| issued := issued s; tokens := tokens s; vip := vip s; txs := txs s; approved := approved s; chal := chal s;
      last_totp := l; boot := boot s; proved := proved s; spent := spent s; now := now s; fresh := fresh s |}.
 
-(* updateAuthCookieAuthlevel(w, r, username, authlevel): the LAST attached auth_cookie is re-signed
-   with the given level (which REPLACES the cookie's own); the repaired code refuses a cookie whose
-   subject is not the authenticated user.  Without a cookie, or on refusal, the handler answers
+(* updateAuthCookieAuthlevel(w, r, username, authlevel): the LAST attached auth_cookie (the one
+   checkAuth authenticated) is re-signed with the given level (which REPLACES the cookie's own; sub,
+   iat and exp are kept); the repaired code refuses a cookie whose subject is not the authenticated
+   user.  The expiry of that cookie is not looked at here (checkAuth did, for the same cookie).  Without a cookie, or on refusal, the handler answers
    500: whatever it did before (one-time value spent) stays done.  `out` is what the harness
    decodes from the Set-Cookie header. *)
 Definition upgrade (k : config) (s : st) (u : N) (cs : list nat) (lvl : N) : st * option cookie :=
-  match pick k (attached s cs) with
+  match pick_sel (upg_last k) (attached s cs) with
   | None => (s, None)
   | Some c =>
       if upgrade_checks_owner k && negb (N.eqb (cuser c) u) then (s, None)
-      else let c' := {| cuser := cuser c; clevel := lvl |} in
+      else let c' := {| cuser := cuser c; clevel := lvl; ciat := ciat c; cexp := cexp c |} in
            (set_issued s (issued s ++ [c']), Some c')
   end.
 
-Definition find_vip (s : st) (v : N) : option vipentry := find (fun e => N.eqb (vc e) v) (vip s).
+(* getPushPollTransaction: the entry stored for the cookie value (the newest one; starting a push
+   overwrites), none if it is past its ExpiresAt (repaired code; before, only the 30 s cleanup
+   sweep enforced the two minutes) *)
+Definition find_vip_raw (s : st) (v : N) : option vipentry := find (fun e => N.eqb (vc e) v) (vip s).
 Definition tx_user (s : st) (tx : N) : option N :=
   match find (fun e => N.eqb (fst e) tx) (txs s) with Some e => Some (snd e) | None => None end.
 Definition is_approved (s : st) (tx : N) : bool := existsb (N.eqb tx) (approved s).
@@ -204,13 +217,19 @@ Definition has_any_key (d : devices) : bool := has_u2f d || has_wa d.
 Section Step.
 Variable k : config.
 
+Definition find_vip (s : st) (v : N) : option vipentry :=
+  match find_vip_raw s v with
+  | Some e => if vip_expiry k && (vexp e <=? now s)%Z then None else Some e
+  | None => None
+  end.
+
 (* one request; `cert`: verified client certificate, `fault`: SaveUserProfile fails *)
 Definition step_req (cert : option N) (fault : bool) (s : st) (o : op) : st * option cookie :=
   match o with
   | Login u ok =>
       if ok then
-        let c := {| cuser := u; clevel := add 0 F_PW |} in
-        (set_ghost (set_issued s (issued s ++ [c])) ((u, F_PW) :: proved s) (spent s), Some c)
+        let c := {| cuser := u; clevel := add 0 F_PW; ciat := now s; cexp := (now s + cookie_life k)%Z |} in
+        (set_ghost (set_issued s (issued s ++ [c])) ((u, F_PW, now s) :: proved s) (spent s), Some c)
       else (s, None)
   | Logout cs => (s, None)
   | VipOtp cs code =>
@@ -222,7 +241,7 @@ Definition step_req (cert : option N) (fault : bool) (s : st) (o : op) : st * op
           | VGood owner =>
               if N.eqb owner u then
                 let (s1, out) := upgrade k s u cs (add l F_VIP) in
-                (set_ghost s1 ((owner, F_VIP) :: proved s1) (spent s1), out)
+                (set_ghost s1 ((owner, F_VIP, now s) :: proved s1) (spent s1), out)
               else (s, None)
           | VBad => (s, None)
           end
@@ -237,7 +256,7 @@ Definition step_req (cert : option N) (fault : bool) (s : st) (o : op) : st * op
               (* StartUserVIPPush(user): a new transaction, sent to that user's phone *)
               let tx := fresh s in
               ({| issued := issued s; tokens := tokens s;
-                  vip := {| vc := v; vuser := u; vtx := tx |} :: vip s;
+                  vip := {| vc := v; vuser := u; vtx := tx; vexp := (now s + vip_life k)%Z |} :: vip s;
                   txs := (tx, u) :: txs s; approved := approved s; chal := chal s;
                   last_totp := last_totp s; boot := boot s; proved := proved s; spent := spent s;
                   now := now s; fresh := fresh s + 1 |}, None)
@@ -248,7 +267,7 @@ Definition step_req (cert : option N) (fault : bool) (s : st) (o : op) : st * op
       | Some u =>
           ({| issued := issued s; tokens := tokens s; vip := vip s; txs := txs s;
               approved := tx :: approved s; chal := chal s; last_totp := last_totp s; boot := boot s;
-              proved := (u, F_VIP) :: proved s; spent := spent s; now := now s; fresh := fresh s |}, None)
+              proved := (u, F_VIP, now s) :: proved s; spent := spent s; now := now s; fresh := fresh s |}, None)
       | None => (s, None)
       end
   | Poll cs v =>
@@ -259,7 +278,11 @@ Definition step_req (cert : option N) (fault : bool) (s : st) (o : op) : st * op
           | None => (s, None)
           | Some e =>
               if poll_checks_user k && negb (N.eqb (vuser e) u) then (s, None)
-              else if is_approved s (vtx e) then upgrade k s u cs (add l F_VIP)
+              else if is_approved s (vtx e) then
+                (* PollPushStatus: the service confirms NOW that the user it sent the push to approved *)
+                let (s1, out) := upgrade k s u cs (add l F_VIP) in
+                (set_ghost s1 (match tx_user s (vtx e) with Some w => (w, F_VIP, now s) :: proved s1 | None => proved s1 end)
+                           (spent s1), out)
               else (s, None)
           end
       end
@@ -279,7 +302,7 @@ Definition step_req (cert : option N) (fault : bool) (s : st) (o : op) : st * op
                 else
                   let s1 := set_totp s (upd (last_totp s) u (if totp_monotone k then stp else cur)) in
                   let (s2, out) := upgrade k s1 u cs (add l F_TOTP) in
-                  (set_ghost s2 ((owner, F_TOTP) :: proved s2) (OtTotp owner stp :: spent s2), out)
+                  (set_ghost s2 ((owner, F_TOTP, now s) :: proved s2) (OtTotp owner stp :: spent s2), out)
               else (s, None)
           end
       end
@@ -315,7 +338,7 @@ Definition step_req (cert : option N) (fault : bool) (s : st) (o : op) : st * op
                   let del := if a_wa_key a then chal_delete_wa k else true in
                   let s1 := if del then set_chal s (upd (chal s) u None) (fresh s) else s in
                   let (s2, out) := upgrade k s1 u cs (add l F_U2F) in
-                  (set_ghost s2 ((a_owner a, F_U2F) :: proved s2) (OtChal (chid ch) :: spent s2), out)
+                  (set_ghost s2 ((a_owner a, F_U2F, now s) :: proved s2) (OtChal (chid ch) :: spent s2), out)
                 else (s, None)
             end
           else (s, None)
@@ -337,8 +360,8 @@ Definition step_req (cert : option N) (fault : bool) (s : st) (o : op) : st * op
                      the library (FIDO2); the U2F bit is set in both cases *)
                   let lvl := if a_wa_key a then add (add l F_FIDO2) F_U2F else add l F_U2F in
                   let (s2, out) := upgrade k s1 u cs lvl in
-                  let pr := if a_wa_key a then (a_owner a, F_FIDO2) :: (a_owner a, F_U2F) :: proved s2
-                            else (a_owner a, F_U2F) :: proved s2 in
+                  let pr := if a_wa_key a then (a_owner a, F_FIDO2, now s) :: (a_owner a, F_U2F, now s) :: proved s2
+                            else (a_owner a, F_U2F, now s) :: proved s2 in
                   (set_ghost s2 pr (OtChal (chid ch) :: spent s2), out)
                 else (s, None)
             end
@@ -372,7 +395,7 @@ Definition step_req (cert : option N) (fault : bool) (s : st) (o : op) : st * op
                               else
                               let s1 := set_boot s (upd (boot s) u None) (fresh s) in
                               let (s2, out) := upgrade k s1 u cs (add l F_BOOT) in
-                              (set_ghost s2 ((owner, F_BOOT) :: proved s2) (OtBoot owner serial :: spent s2), out)
+                              (set_ghost s2 ((owner, F_BOOT, now s) :: proved s2) (OtBoot owner serial :: spent s2), out)
                             else (s, None)
                         | BBad => (s, None)
                         end
@@ -396,9 +419,9 @@ Definition step_req (cert : option N) (fault : bool) (s : st) (o : op) : st * op
               if negb (N.eqb (towner t) u) then (s, None)
               else if (texp t <=? now s)%Z then (s, None)
               else
-                (* a NEW cookie for the token's user carrying only the CLI bit *)
-                let c' := {| cuser := towner t; clevel := add 0 F_CLI |} in
-                (set_ghost (set_issued s (issued s ++ [c'])) ((u, F_CLI) :: proved s) (spent s), Some c')
+                (* a NEW cookie for the token's user carrying only the CLI bit, valid as long as the token *)
+                let c' := {| cuser := towner t; clevel := add 0 F_CLI; ciat := now s; cexp := texp t |} in
+                (set_ghost (set_issued s (issued s ++ [c'])) ((u, F_CLI, now s) :: proved s) (spent s), Some c')
           end
       end
   | Tick dt =>
@@ -412,7 +435,7 @@ Definition step_req (cert : option N) (fault : bool) (s : st) (o : op) : st * op
    its user (ghost) *)
 Definition present_cert (s : st) (cert : option N) : st :=
   match cert with
-  | Some u => set_ghost s ((u, F_X509) :: proved s) (spent s)
+  | Some u => set_ghost s ((u, F_X509, now s) :: proved s) (spent s)
   | None => s
   end.
 
@@ -433,7 +456,8 @@ End Step.
 
 (* the code as repaired *)
 Definition fixed (d : N -> devices) (w : N) : config :=
-  {| devs := d; webui := w; sel_last := true; poll_checks_user := true; totp_monotone := true;
+  {| devs := d; webui := w; cookie_life := 57600; sel_last := true; upg_last := true;
+     vip_life := 120; vip_expiry := true; poll_checks_user := true; totp_monotone := true;
      chal_expiry := true; chal_delete_wa := true; upgrade_checks_owner := true |}.
 
 (* ---- correspondence: per step, did the handler answer with success, and the (user, level) of
@@ -457,21 +481,21 @@ Fixpoint run_obs (k : config) (s : st) (ops : list op) : list (bool * option coo
   end.
 
 (* ---- per-step (user, level) of the cookie the server emitted ---- *)
-Definition out_eqb (m : option cookie) (o : option (N * N)) : bool :=
+Definition out_eqb (m : option cookie) (o : option (N * N * Z * Z)) : bool :=
   match m, o with
   | None, None => true
-  | Some c, Some (u, l) => N.eqb (cuser c) u && N.eqb (clevel c) l
+  | Some c, Some (u, l, ia, ex) => N.eqb (cuser c) u && N.eqb (clevel c) l && Z.eqb (ciat c) ia && Z.eqb (cexp c) ex
   | _, _ => false
   end.
 
-Fixpoint outs_agree (ms : list (option cookie)) (os : list (option (N * N))) (i : nat) : list nat :=
+Fixpoint outs_agree (ms : list (option cookie)) (os : list (option (N * N * Z * Z))) (i : nat) : list nat :=
   match ms, os with
   | m :: mr, o :: or => (if out_eqb m o then [] else [i]) ++ outs_agree mr or (S i)
   | [], [] => []
   | _, _ => [i]
   end.
 
-Fixpoint obs_agree (ms : list (bool * option cookie)) (os : list (bool * option (N * N))) (i : nat) : list nat :=
+Fixpoint obs_agree (ms : list (bool * option cookie)) (os : list (bool * option (N * N * Z * Z))) (i : nat) : list nat :=
   match ms, os with
   | (mok, m) :: mr, (ok, o) :: or => (if Bool.eqb mok ok && out_eqb m o then [] else [i]) ++ obs_agree mr or (S i)
   | [], [] => []
